@@ -43,6 +43,9 @@ ASSUMPTIONS = [
     'creation stream: the shadow directory of a created instance (ExperimentShadowDirectory.temporaryShadow) is placed under '
     'the scratch directory and the clock of experiment.model.data/storage is fixed, so that every faulted re-run starts from '
     'the same pre-state and writes the same texts; the copy of the package into the instance directory is not a state file',
+    'overlapping updates: the two calls run in two threads that are serialised at the intercepted file operations (a thread '
+    'keeps the turn from one operation to its next request), so an interleaving is a merge of whole operations; the path-level '
+    'model of the file system is exact only while the two calls use different temporary paths - the recorded opens are checked for it',
     'file-level codec model: characters are code points < 256 (larger ones in values other than error-description are '
     'checked on the real code only); the escaping of error-description is modelled and proved over all code points (Fs.Wide)',
 ]
@@ -1161,6 +1164,9 @@ def run(ctx):
                 'latin-1 and wider code points, fault = process death or I/O error at operation k after j characters; '
                 'plus creation cases (package, entry point in {experimentFromPackage, experimentFromInstance with a subset of '
                 'the state files removed}, fault) - the first write of the state files; '
+                'plus overlap cases (two real Status.update calls - two Status objects or one - or two Experiment._store_* calls on the same '
+                'file, a schedule from {B inside A after operation i, A inside B, alternation, random merge, sequential}, a fault at '
+                'every operation of the interleaving); '
                 'plus loader cases (printed, truncated, hand-made status files). non-trivial = a previous version of the '
                 'file exists and the fault is after the first operation; distinct by (updater, update, fault)')
     rng = ctx.rng
@@ -1169,6 +1175,11 @@ def run(ctx):
     t0 = time.time()
     run_status(ctx, rng, terms, print_terms, parse_terms, gen_histories(rng, ctx.tier))
     t1 = time.time()
+    import c14_overlap
+    overlap_terms = []
+    c14_overlap.run_status_overlap(ctx, rng, overlap_terms)
+    c14_overlap.run_iface_overlap(ctx, rng, overlap_terms)
+    t1b = time.time()
     run_logs(ctx, rng, terms)
     run_details(ctx, rng, terms)
     t2 = time.time()
@@ -1179,9 +1190,13 @@ def run(ctx):
     create_terms = []
     c14_create.run_create(ctx, rng, create_terms)
     t4 = time.time()
-    ctx.extra['drive_s'] = {'status': round(t1 - t0, 1), 'logs+details': round(t2 - t1, 1), 'instance': round(t3 - t2, 1),
+    ctx.extra['drive_s'] = {'status': round(t1 - t0, 1), 'overlap': round(t1b - t1, 1), 'logs+details': round(t2 - t1b, 1), 'instance': round(t3 - t2, 1),
                             'creation': round(t4 - t3, 1)}
     _finish_terms(ctx, terms, 'check_update', 'C14 protocol: operation trace and files after every fault vs Fs.Model.exec/run', 12)
+    _finish_terms(ctx, overlap_terms, 'check_overlap',
+                  'C14 overlapping updates: interleaved trace, state file after every operation and files after every fault vs '
+                  'Fs.Model.interleave/exec/run', 3)
+    ctx.extra['overlaps_modelled'] = len(overlap_terms)
     _finish_terms(ctx, create_terms, 'check_create',
                   'C14 creation path: trace, removal of the instance and files after every fault vs Fs.Model.exec2', 3)
     _finish_terms(ctx, print_terms, 'check_print', 'C14 codec: Status.writeToStream vs Fs.Model.status_print', 60)
